@@ -399,3 +399,17 @@ package badger
 //@   assert[smallest] before call ParseKey#1 : arg0 == ret(Smallest#1)
 //@   assert[biggest-user-key] before call HasPrefix#2 : arg0 == ret(ParseKey#2) && arg1 == prefix
 //@   assert[biggest] before call ParseKey#2 : arg0 == ret(Biggest#1)
+
+// ---- subscriptions (C32): patterns are matched against the user key ----
+
+//@ func (*publisher).publishUpdates
+//@   props C32
+//@   light
+//@   assert[locked] before call Get : held(p.Mutex)
+//@   assert[match-user-key] before call Get : arg1 == ret(ParseKey#1)
+//@   assert[of-entry-key] before call ParseKey#1 : arg0 == e.Key
+//@   assert[kv-copy-of-key] before call SafeCopy#1 : arg1 == e.Key
+//@   assert[kv-key] before call ParseKey#2 : arg0 == ret(SafeCopy#1)
+//@   assert[kv-version] before call ParseTs : arg0 == ret(SafeCopy#1)
+//@   assert[kv-value] before call SafeCopy#2 : arg1 == e.Value
+//@   note C32: light mode; trie.Get is used under an assumed contract (ids whose pattern matches the key given); exactly-once and commit order across batches are not covered
